@@ -205,6 +205,15 @@ def build_and_audit(pid):
     out = {'build_ok': False, 'build_log': '', 'theorems': {}, 'bad': [], 'forbidden': []}
     names = theorem_names(pid)
     rc, log = leanmod.lake(['build', 'pvdriver', 'PV.Props.' + pid])
+    # a build that fails WITHOUT a Lean error message (process killed under memory pressure, interrupted I/O) says nothing about
+    # the proofs: retry, and if it keeps failing report a tooling failure (exit 2), never a violation
+    tries = 0
+    while rc != 0 and not re.search(r'(?m)^error: .*\.lean:\d+:\d+', log) and tries < 3:
+        tries += 1
+        time.sleep(5 * tries)
+        rc, log = leanmod.lake(['build', 'pvdriver', 'PV.Props.' + pid])
+    if rc != 0 and not re.search(r'(?m)^error: .*\.lean:\d+:\d+', log):
+        raise RuntimeError('lake build fails without a Lean error message (rc %r): %s' % (rc, log[-800:]))
     out['build_ok'] = (rc == 0)
     out['build_log'] = log[-6000:]
     out['forbidden'] = grep_forbidden(pid)
@@ -220,10 +229,16 @@ def build_and_audit(pid):
             f.write('open %s\n' % ns)
         for n in names:
             f.write('#print axioms %s\n#check @%s\n' % (n, n))
-    with leanmod.LakeLock():
-        p = subprocess.run(['lake', 'env', 'lean', audit], cwd=LEAN_DIR, stdout=subprocess.PIPE,
-                           stderr=subprocess.STDOUT, text=True, timeout=1800)
-    txt = p.stdout
+    for attempt in range(4):
+        with leanmod.LakeLock():
+            p = subprocess.run(['lake', 'env', 'lean', audit], cwd=LEAN_DIR, stdout=subprocess.PIPE,
+                               stderr=subprocess.STDOUT, text=True, timeout=1800)
+        txt = p.stdout
+        if p.returncode == 0 or re.search(r'(?m)^.*\.lean:\d+:\d+: error', txt):
+            break
+        time.sleep(5 * (attempt + 1))       # killed / interrupted without a Lean message: not a statement about the theorems
+    else:
+        raise RuntimeError('the axiom audit process fails without a Lean error message (rc %r): %s' % (p.returncode, txt[-800:]))
     if p.returncode != 0:
         out['build_ok'] = False
         out['build_log'] = txt[-6000:]
